@@ -38,6 +38,8 @@ def run_property(prop, tier, seed, jobs=None, only=None):
     from . import evidence, known, replay
     t0 = time.time()
     mod = importlib.import_module('vf.props.' + prop.lower())
+    os.environ['VERIF_TIER_ACTIVE'] = tier
+    os.environ['VERIF_SEED_ACTIVE'] = str(seed)
     cases = mod.cases(tier, seed)
     if only:
         cases = [c for c in cases if only in c[0]]
